@@ -740,3 +740,58 @@ def emit_null_fills(rows) -> str:
     return ("From Coq Require Import List ZArith Bool String.\nFrom ND Require Import Ndx.NullReduce.\nImport ListNotations.\nOpen Scope string_scope.\n"
             "(* GENERATED from ndonnx/_core/_numericimpl.py: the null-fill statement of every reduction *)\n"
             f"Definition null_fills : list (string * list (string * fillk)) :=\n  [{body}].\n")
+
+
+# ------------------------------------------------------------------ all / any as forms (C10) ---
+def allany_forms():
+    """all/any of _NumericOperationsImpl and _BooleanOperationsImpl: after the optional null fill the body must be
+        <name> = <B> if x.dtype == ndx.bool else <N>
+        return ndx.<OUTER>(ndx.<RED>(<name>.astype(ndx.int64), axis=axis, keepdims=keepdims), 0)
+    Returns [(where, fname, inner_bool, inner_num, red, outer)].  Fail-closed."""
+    out = []
+    POINT = {"ndx.logical_not(x)": "PNot", "x": "PId", "ndx.equal(x, 0)": "PEq0", "ndx.not_equal(x, 0)": "PNe0"}
+    for rel, cname, tag in (("ndonnx/_core/_numericimpl.py", "_NumericOperationsImpl", "num"), ("ndonnx/_core/_boolimpl.py", "_BooleanOperationsImpl", "bool")):
+        text, mod = src(rel)
+        cls = [n for n in mod.body if isinstance(n, ast.ClassDef) and n.name == cname]
+        if not cls:
+            raise Untranslatable(f"{rel}: class {cname} not found")
+        for fname in ("all", "any"):
+            fns = [m for m in cls[0].body if isinstance(m, ast.FunctionDef) and m.name == fname]
+            if len(fns) != 1:
+                raise Untranslatable(f"{cname}.{fname}: not found")
+            fn = fns[0]
+            kw = [a.arg for a in fn.args.kwonlyargs]
+            if [a.arg for a in fn.args.args] != ["self", "x"] or kw != ["axis", "keepdims"]:
+                raise Untranslatable(f"{cname}.{fname}: signature {ast.unparse(fn.args)}")
+            body = [s for s in fn.body if not (isinstance(s, ast.Expr) and isinstance(s.value, ast.Constant))]
+            if body and isinstance(body[0], ast.If) and ast.unparse(body[0].test) == "isinstance(x.dtype, dtypes.NullableCore)" and not body[0].orelse \
+                    and len(body[0].body) == 1 and ast.unparse(body[0].body[0]).startswith("x = ndx.where(x.null, "):
+                body = body[1:]          # the null fill (its value is C04's business: null_fills())
+            if len(body) != 2 or not isinstance(body[0], ast.Assign) or not isinstance(body[1], ast.Return):
+                raise Untranslatable(f"{cname}.{fname}: unexpected statements: " + " | ".join(ast.unparse(s)[:50] for s in body))
+            a, r = body
+            v = a.value
+            if not (len(a.targets) == 1 and isinstance(a.targets[0], ast.Name) and isinstance(v, ast.IfExp) and ast.unparse(v.test) == "x.dtype == ndx.bool"):
+                raise Untranslatable(f"{cname}.{fname}: inner step " + ast.unparse(a)[:80])
+            name = a.targets[0].id
+            ib, inn = POINT.get(ast.unparse(v.body)), POINT.get(ast.unparse(v.orelse))
+            if ib not in ("PNot", "PId") or inn not in ("PEq0", "PNe0"):
+                raise Untranslatable(f"{cname}.{fname}: inner expressions " + ast.unparse(v)[:80])
+            rv = r.value
+            ok = (isinstance(rv, ast.Call) and ast.unparse(rv.func) in ("ndx.equal", "ndx.not_equal") and len(rv.args) == 2 and not rv.keywords
+                  and ast.unparse(rv.args[1]) == "0" and isinstance(rv.args[0], ast.Call) and ast.unparse(rv.args[0].func) in ("ndx.sum", "ndx.prod", "ndx.min", "ndx.max")
+                  and len(rv.args[0].args) == 1 and ast.unparse(rv.args[0].args[0]) == f"{name}.astype(ndx.int64)"
+                  and sorted((k.arg, ast.unparse(k.value)) for k in rv.args[0].keywords) == [("axis", "axis"), ("keepdims", "keepdims")])
+            if not ok:
+                raise Untranslatable(f"{cname}.{fname}: return expression " + ast.unparse(rv)[:120])
+            outer = "PEq0" if ast.unparse(rv.func) == "ndx.equal" else "PNe0"
+            red = {"ndx.sum": "FSum", "ndx.prod": "FProd", "ndx.min": "FMin", "ndx.max": "FMax"}[ast.unparse(rv.args[0].func)]
+            out.append((tag, fname, ib, inn, red, outer))
+    return out
+
+
+def emit_allany(rows) -> str:
+    defs = "\n".join(f"Definition gen_{tag}_{f} : aform := {{| af_inner_bool := {ib}; af_inner_num := {inn}; af_red := {red}; af_outer := {outer} |}}."
+                     for tag, f, ib, inn, red, outer in rows)
+    return ("From Coq Require Import List ZArith Bool.\nFrom ND Require Import Ndx.ReduceMore.\n"
+            "(* GENERATED from _numericimpl.py / _boolimpl.py: all / any as (inner step, reducer, outer comparison) *)\n" + defs + "\n")
